@@ -277,7 +277,17 @@ func clipS(s string) string {
 	return s
 }
 
+// drainWireMismatches reports transactions whose re-encoding differs from the wire bytes they came from.
+func (m *mon) drainWireMismatches() {
+	for i := range wireMismatches {
+		cs := wireMismatches[i]
+		m.viol(&cs, "reencode-differs:Transaction:from-wire-fields", "encode(decode(b)) != b for a transaction built from wire fields: "+cs.What)
+	}
+	wireMismatches = nil
+}
+
 func (m *mon) valueCase(cd *codec, r *run.Rng) {
+	defer m.drainWireMismatches()
 	txOrigin = map[*types.Transaction]*fx.TxFields{}
 	g := newG(r)
 	v := cd.gen(g)
